@@ -182,6 +182,36 @@ pub fn run(a: &Args) -> i32 {
                 check("generator that first answered every other query about the same board", s, &p, d, r, tab, &mut calls, &mut counted);
             }
         }
+        // (c3) the generator has just counted a TWIN of the position: same men, fewer castling
+        // rights (every subset of the rights held) - and the other way round, the twin counted after
+        // the position itself (its true count comes from the model directly)
+        if p.castle != 0 {
+            for sub in 0..16u8 {
+                if sub & !p.castle != 0 || sub == p.castle {
+                    continue;
+                }
+                let mut twin = p.clone();
+                twin.castle = sub;
+                if !twin.is_consistent() {
+                    continue;
+                }
+                for d in 0..=dmax.min(1) {
+                    let mut g = MoveGenerator::new();
+                    let _ = call(&mut g, &twin, d, None);
+                    let r = call(&mut g, &p, d, None);
+                    check("generator that just counted the same men with fewer castling rights", s, &p, d, r, tab, &mut calls, &mut counted);
+                    let mut g2 = MoveGenerator::new();
+                    let _ = call(&mut g2, &p, d, None);
+                    let r2 = call(&mut g2, &twin, d, None);
+                    let want: u64 = (1..=(d as u32 + 1)).map(|k| twin.perft(k)).sum();
+                    calls += 1;
+                    match r2 {
+                        Ok((n, _)) if n == want => {}
+                        other => sink.push(Violation { prop: "C10".into(), class: "wrong-count".into(), seed: twin.to_fen(), path: vec![], detail: format!("{} with castling rights {:04b} at depth {} [generator that just counted the same men with rights {:04b}]: {:?}, true number {}", s.name, sub, d, p.castle, other.map(|x| x.0), want), extra: json!({"kind": "c10", "fen": twin.to_fen(), "depth": d, "config": "rights twin"}) }),
+                    }
+                }
+            }
+        }
         // (a'') the same generator histories inside pools of one and two threads (a single-thread pool
         // may take a sequential path through the caller's own generator): deepening 0..D with one
         // generator, and the other colour first, for the small seeds and the initial position
